@@ -53,6 +53,7 @@ type Val struct {
 	C     []*Term
 	Ptr   *MetaPtr
 	Clo   *Closure
+	Alts  []*Closure // a function value that is one of several known plain functions (merged at a join); C[0] is its id
 	Tuple []Val
 	// Untyped constant (spec language only)
 	Const *big.Int
